@@ -4,6 +4,7 @@ import Hpl.Model.DataType
 import Hpl.Model.Build
 import Hpl.Model.Query
 import Hpl.Model.Printer
+import Hpl.Spec.Typing
 /-! Line-protocol driver: one S-expression request per line on stdin, one canonical answer per line on stdout. -/
 open Hpl
 open Hpl.Codec
@@ -59,6 +60,49 @@ def handle (req : Sexp) : Sexp :=
     match rs.mapM decRawProperty with
     | some rs => encM (fun ps => ps.map encProperty) (buildSpec rs)
     | none => errS "protocol" "mkspec"
+  | .list (.atom "specquery" :: e :: names) =>
+    -- the declarative side of C15: free variables and predicates over the pre-order listing
+    match decExpr e, names.mapM Sexp.strOf with
+    | some e, some names =>
+      okS [Sexp.list (.atom "refs" :: e.freeVars.map Sexp.str), Sexp.ofBool (e.preorder.any isThis),
+           .list (names.map (fun n => Sexp.ofBool (e.preorder.any (isVarNamed n)))),
+           .list (names.map (fun n => Sexp.ofBool (e.preorder.any (bindsName n)))),
+           .list (e.preorder.map encExpr)]
+    | _, _ => errS "protocol" "specquery"
+  | .list (.atom "evquery" :: e :: names) =>
+    match decEvent e, names.mapM Sexp.strOf with
+    | some e, some names =>
+      let refs := match e.externalRefs with
+        | .ok rs => Sexp.list (.atom "refs" :: rs.map Sexp.str)
+        | .error _ => Sexp.list [.atom "keyerror"]
+      okS [refs, Sexp.ofBool e.containsSelf, .list (names.map (fun n => Sexp.ofBool (e.containsRef n))),
+           .list (e.aliases.map Sexp.str), .list (e.simpleEvents.map encEvent)]
+    | _, _ => errS "protocol" "evquery"
+  | .list (.atom "evspec" :: e :: names) =>
+    match decEvent e, names.mapM Sexp.strOf with
+    | some e, some names =>
+      okS [Sexp.list (.atom "refs" :: e.freeRefs.map Sexp.str),
+           .list (names.map (fun n => Sexp.ofBool (e.simpleEvents.any (fun s => match s with
+              | .simple _ _ p => p.condition.preorder.any (isVarNamed n) | _ => false)))),
+           .list ((e.simpleEvents.flatMap (fun s => match s with | .simple _ (some a) _ => [a] | _ => [])).map Sexp.str)]
+    | _, _ => errS "protocol" "evspec"
+  | .list [.atom "welltyped", x] =>
+    -- spec decider of C03 on an implementation AST: (ok wt callArgsInside "first offending node")
+    let judge (e : Expr) (root : Bool) : Sexp :=
+      let bad := match firstIllTyped e with | some n => n.print | none => ""
+      okS [Sexp.ofBool (if root then wtPredB (.expr e) else wtB e), Sexp.ofBool true, .str bad]
+    match decExpr x with
+    | some e => judge e false
+    | none => match decPred x with
+      | some (.expr e) => judge e true
+      | some _ => okS [Sexp.ofBool true, Sexp.ofBool true, .str ""]
+      | none => match decProperty x with
+        | some p =>
+          let evs := (p.scope.activator.toList ++ [p.pattern.behaviour] ++ p.pattern.trigger.toList ++ p.scope.terminator.toList).flatMap Event.simpleEvents
+          let preds := evs.filterMap (fun e => match e with | .simple _ _ (.expr x) => some x | _ => none)
+          okS [Sexp.ofBool (preds.all (fun e => wtPredB (.expr e))), Sexp.ofBool true,
+               .str (match preds.findSome? firstIllTyped with | some n => n.print | none => "")]
+        | none => errS "protocol" "welltyped"
   | .list [.atom "ping"] => okS [.atom "pong"]
   | _ => errS "protocol" "unknown request"
 
